@@ -1,6 +1,6 @@
 \* history generator: initial schedules projected from real invokes
 \* (PV_INIT, each with its own bound); prints every transition once.
-\* Run with ONE worker (breadth-first: the view hides the history length).
+\* (the view keeps the history length: any worker count gives the same graph)
 CONSTANTS MaxLen = 0
  MaxLen2 = 0
  MaxKern = 2
@@ -8,7 +8,7 @@ CONSTANTS MaxLen = 0
  Source = "env"
 INIT Init
 NEXT Next
-VIEW ViewSched
+VIEW ViewLen
 ACTION_CONSTRAINT Dump
 INVARIANT InvSharedIncColoured
 INVARIANT InvColoursSequential
